@@ -40,6 +40,7 @@ def wrap(rng, cs, big_aux=False):
         if ty == "Exif":
             payload = b"\x00\x00\x00\x00" + payload
         desc["aux"].append((where, ty, len(payload)))
+        desc.setdefault("first", {}).setdefault(ty, payload.hex())
         return ty, payload
     for _ in range(rng.choice([0, 1, 2])):
         ty, payload = auxbox("before")
@@ -65,6 +66,28 @@ def wrap(rng, cs, big_aux=False):
         out += box(ty, payload, rng.choice(encs + (["eof"] if i == na - 1 else [])))
     return out, desc
 
+
+
+def aux_word(payload):
+    """the harness's report of an aux payload: `<len>:<fnv1a-64 over the bytes as little-endian u32s>`"""
+    h = 0xcbf29ce484222325
+    for b in payload:
+        for x in (b, 0, 0, 0):
+            h = ((h ^ x) * 0x100000001b3) & 0xFFFFFFFFFFFFFFFF
+    return f"{len(payload)}:{h:016x}"
+
+
+def expected_aux(desc):
+    """what JxlImage::aux_boxes() must report after finalize() for a file made by `wrap`
+    (independent of the decoder: from the generator's own record of the boxes it wrote)"""
+    first = {k: bytes.fromhex(v) for k, v in (desc or {}).get("first", {}).items()}
+    if "Exif" in first:
+        body = first["Exif"][4:]
+        exif = aux_word(body) if len(body) > 0 else "invalid"      # tiff offset 0 needs a non-empty body
+    else:
+        exif = "notfound"
+    xml = aux_word(first["xml "]) if "xml " in first else "notfound"
+    return exif, xml
 
 
 def cs_to_file_offset(data, cs_off):
